@@ -625,7 +625,21 @@ pub fn run_batch<S: Sim>(sim: &S, opts: &Opts) -> BatchReport {
         let fresh_pair = |sc: &S::Scenario| -> Option<FreshResult> {
             let a = fresh_exec(sim, sc, &cand, &opts.verif_dir)?;
             let b = fresh_exec(sim, sc, &cand, &opts.verif_dir)?;
-            (a.violation.is_some() && a.violation == b.violation && a.log_hash == b.log_hash).then_some(a)
+            if a.violation.is_some() && a.violation == b.violation && a.log_hash == b.log_hash {
+                return Some(a);
+            }
+            // the same rule breaks in both executions but the details differ: the code under test reads
+            // something the simulator does not own (a real clock, an address, process-wide state)
+            match (&a.violation, &b.violation) {
+                (Some(x), Some(y)) if x.rule == y.rule => {
+                    let mut a = a;
+                    if let Some(v) = a.violation.as_mut() {
+                        v.detail = format!("{} [details differ between two executions of the same scenario: the code under test depends on something outside the simulation]", v.detail);
+                    }
+                    Some(a)
+                }
+                _ => None,
+            }
         };
         let (min_sc, r1, minimised) = match fresh_pair(&min_sc).filter(|r| r.violation.as_ref().is_some_and(|x| x.rule == v.rule)) {
             Some(r) => (min_sc, r, true),
